@@ -231,7 +231,7 @@ func applyOps(text string, ops []layOp) (string, bool) {
 					lines[i] = strings.Repeat(" ", keep) + strings.Repeat("\t", r/4) + strings.Repeat(" ", r%4) + rest
 				}
 			}
-		case "blank":
+		case "blank", "blankws":
 			if op.Arg > len(lines) {
 				return "", false
 			}
@@ -242,9 +242,13 @@ func applyOps(text string, ops []layOp) (string, bool) {
 				lines[len(lines)-1] += "\n"
 			}
 			nl := append([]string{}, lines[:op.Arg]...)
-			nl = append(nl, "\n")
+			if op.Op == "blankws" {
+				nl = append(nl, "    \t\n") // a line of blanks only
+			} else {
+				nl = append(nl, "\n")
+			}
 			lines = append(nl, lines[op.Arg:]...)
-		case "comment", "comment0", "commentE", "commentE0":
+		case "comment", "comment0", "commentE", "commentE0", "commentI":
 			if op.Arg >= len(lines) {
 				return "", false
 			}
@@ -255,6 +259,9 @@ func applyOps(text string, ops []layOp) (string, bool) {
 			pre := l[:len(l)-len(strings.TrimLeft(l, " \t"))]
 			if strings.HasSuffix(op.Op, "0") {
 				pre = ""
+			}
+			if op.Op == "commentI" {
+				pre = "    "
 			}
 			txt := "# inserted comment: x <- y [z]\n"
 			if strings.HasPrefix(op.Op, "commentE") {
@@ -298,10 +305,13 @@ func (c03) Cases(tier string, emit func(string, interface{})) {
 		}
 		var locals []layOp
 		for i := 0; i <= len(lines); i++ {
-			locals = append(locals, layOp{"blank", i})
+			locals = append(locals, layOp{"blank", i}, layOp{"blankws", i})
 		}
 		for _, i := range commentPositions(lines) {
 			locals = append(locals, layOp{"comment", i}, layOp{"commentE", i})
+			if w, _ := indentWidth(lines[i]); w == 0 && strings.HasPrefix(strings.TrimSpace(lines[i]), "import ") {
+				locals = append(locals, layOp{"commentI", i}) // an indented comment line inside the import block
+			}
 			if w, _ := indentWidth(lines[i]); w == 0 {
 				continue
 			}
